@@ -54,7 +54,15 @@ pub fn bstr_classes(ex: &Ex) -> Vec<Vec<u8>> {
         Scale::Quick => vec![0, 1, 23, 24, 255, 256, 65535, 65536],
         Scale::Thorough => vec![0, 1, 23, 24, 255, 256, 65535, 65536, 1 << 20],
     };
-    lens.into_iter().map(gen::pattern).collect()
+    let mut v: Vec<Vec<u8>> = lens.into_iter().map(gen::pattern).collect();
+    // contents that look like CBOR themselves (tagged array head, empty bstr, break), NUL
+    if ex.scale != Scale::Small {
+        v.push(vec![0xd2, 0x84, 0x40, 0xa0, 0xf6, 0x40]);
+        v.push(vec![0x87, 0x84, 0x40, 0xa0, 0xf6, 0x40]);
+        v.push(vec![0x40]);
+        v.push(vec![0xff, 0x00]);
+    }
+    v
 }
 
 /// Pairs (aad, payload) of length classes: the full product of the small classes, the large ones
